@@ -315,8 +315,15 @@ def gen_unary(tier, seed):
                 scope = names[:r]
                 cards = dict(zip(scope, cs))
                 idx += 1
-                yield {"vars": _mk_vars(scope, cards, lab, idx), "labeling": lab, "f": scope,
-                       "fv": _rand_flat(rng, _size(scope, cards), 0.2)}
+                case = {"vars": _mk_vars(scope, cards, lab, idx), "labeling": lab, "f": scope,
+                        "fv": _rand_flat(rng, _size(scope, cards), 0.2)}
+                yield case
+                if idx % 4 == 0 and lab == LABELINGS[0]:
+                    # the same table rescaled to a total just below 1 (1 - 2^-14): "almost normalised" input must still be normalised exactly
+                    xs = [int(x.split("/")[0]) for x in case["fv"]]
+                    tot = sum(xs)
+                    if tot:
+                        yield dict(case, fv=[f"{x * 16383}/{tot * 16384}" for x in xs])
 
 
 def gen_nary(tier, seed):
@@ -736,7 +743,7 @@ def groups(tier):
                     "in-place and out-of-place, operand snapshots, result scribbling; every third pattern also with both tables scaled by 2^-40; "
                     "8 hash seeds per case. " + common),
         Group("unary", gen_unary, check_unary, nontrivial, seed_fanout=2, engine="E3",
-              bound="ranks 0..3 (thorough 0..4), quick: all card assignments for rank <= 2 and 9 for rank 3, thorough: all; 5 labelings; every axis "
+              bound="every fourth table also rescaled to the total 1 - 2^-14; ranks 0..3 (thorough 0..4), quick: all card assignments for rank <= 2 and 9 for rank 3, thorough: all; 5 labelings; every axis "
                     "permutation; marginalize/maximize every subset (both listing orders), reduce every assignment of every subset, normalize, copy, "
                     "scalar product/sum, step-wise elimination in both orders, reduce/marginalize commute, frame and aliasing. " + common),
         Group("equality", gen_unary, check_eq, nontrivial, seed_fanout=1, engine="E3",
